@@ -288,6 +288,10 @@ func (c *conn) send(ctx async.Context, msg pmpx.Message) status.Status {
 		select {
 		case <-ctx.Wait():
 			return ctx.Status()
+		case <-c.closed.Wait():
+			// The closed queue wakes only the senders which already wait on its channel,
+			// a sender which got the channel just before the close would wait forever.
+			return statusConnClosed
 		case <-c.writeq.WriteWait(len(b)):
 			continue
 		}
